@@ -232,6 +232,24 @@ HARNESSES = [
          unwind=4, witness_per_config=True, backends=["default"],
          bound="2 -> 3 and 2 -> 4 groups of 16 blocks, 8 inodes per group, inode table 2 blocks, 1 descriptor block; old block bitmap, "
                "sparse_super / sparse_super2 + old s_backup_bgs, descriptor checksums, lazy_itable_init, reserved GDT 0..2, table placement symbolic"),
+    dict(name="eafix", src="eafix.c",
+         funcs=["fix_ea_block_entries", "fix_ea_entries", "ext2fs_extent_translate"],
+         extra_src=["resize/extent.c"],
+         configs=[{"NLEN": 3}, {"NLEN": 8}],
+         unwind=5, unwindset=["main.%d:97" % i for i in range(12)] + ["vf_put.0:5", "vf_put.1:9"],
+         witness_per_config=True, backends=["default"],
+         bound="EA block of 96 bytes with 1..2 entries (name length 3 / 8, all other fields symbolic), inode map of 2 symbolic entries, last_ino symbolic"),
+    dict(name="bbmove", src="bbmove.c",
+         funcs=["block_mover", "get_new_block", "init_block_alloc", "ext2fs_add_extent_entry", "ext2fs_iterate_extent"],
+         extra_src=["resize/extent.c"],
+         configs=[{}],
+         unwind=4, unwindset=["main.%d:18" % i for i in range(12)] +
+                   ["block_mover.0:18", "block_mover.1:18", "block_mover.2:18", "block_mover.3:18", "get_new_block.0:24",
+                    "ext2fs_mark_generic_bmap.0:18", "ext2fs_unmark_generic_bmap.0:18", "ext2fs_test_generic_bmap.0:18",
+                    "io_channel_write_blk64.0:18", "io_channel_write_blk64.1:3", "ext2fs_mark_block_bitmap_range2.0:6"],
+         backends=["default", "kissat"],
+         bound="old file system 2 groups x 8 blocks shrinks to 1 group; in-use / move / reserve sets and 0..2 bad blocks symbolic; "
+               "copy chunks of at most 2 blocks"),
 ]
 MANIFEST = {
     "text": "Bounded-exhaustive model checking (CBMC) of kernels of resize2fs compiled from the real sources: the error-flag "
